@@ -110,12 +110,21 @@ def analyse(ctx, replace=None, only=None):
                         "%s is called while %s is held: it joins a thread or re-acquires the (non-recursive) lock -> deadlock" % (c, LOCK))
     R.require(n_nb >= 6, "only %d blocking call sites found" % n_nb)
 
-    handoff(R, sh)
+    handoff(R, sh, P)
     per_thread_state(R, P, th)
     join_list(R, th["aws_thread_join_and_free_wrapper_list"])
     thread_fn(R, th["thread_fn"])
     atexit(R, th["aws_thread_current_at_exit"])
-    launch(R, th["aws_thread_launch"])
+    lf = th["aws_thread_launch"]
+    if not lf.calls("pthread_create"):
+        # the launch proper may live in a private function that aws_thread_launch calls (once, or again for the unpinned
+        # retry) and whose result it returns
+        cands = [g for g in th.values() if g.calls("pthread_create")]
+        if len(cands) == 1 and lf.calls(cands[0].name):
+            okw = all(r_.node["a"] and (RU.origin(lf, r_.node["a"][0]) or {}).get("callee") == cands[0].name for r_ in lf.returns())
+            R.check(okw, "LAUNCH", "launch-returns-the-attempt", "%s()" % lf.name, "aws_thread_launch returns the result of %s on every path" % cands[0].name)
+            lf = cands[0]
+    launch(R, lf)
     ownership_and_init(R, P, th, allf)
     # wrapper destroy: name destroyed, then the wrapper released, nothing after
     d = th["s_thread_wrapper_destroy"]
@@ -160,7 +169,7 @@ def per_thread_state(R, P, th):
                 "%s is written by every library thread at start-up but is not thread-local: all threads share one `current wrapper`, so at-exit callbacks are registered on whichever thread started last (run on the wrong thread, or written into a wrapper copy on a stack that is gone)" % n)
 
 
-def handoff(R, sh):
+def handoff(R, sh, P=None):
     f = sh["aws_thread_pending_join_add"]
     sw = [e for e in f.calls("aws_linked_list_swap_contents")]
     pu = [e for e in f.calls({"aws_linked_list_push_back", "aws_linked_list_push_front"}) if argstr(f, e.node, 0) == "s_pending_join_managed_threads"]
@@ -214,51 +223,43 @@ def handoff(R, sh):
         ini = [e for e in j.calls("aws_linked_list_init") if argstr(j, e.node, 0) in local]
         dom = dominators(j)
         R.check(bool(ini) and all(any(ev_dominates(j, i, s, dom) for i in ini) for s in sw), "HANDOFF", "join-all:list-initialised", where(j, sw[0]), "join list initialised before the swap")
-    # done := (count == 0) under the lock; other stores only `true` under a timeout test; loop runs while !done
+    # join-all returns only after it has seen, under the lock, that no managed thread is left unjoined - or its deadline has
+    # passed.  (1) every read of the count is under the lock; (2) NUM, every return state: the count last read is 0, or the
+    # clock value last fetched has reached a non-zero deadline - however the loop and its `done` flag are written
     ts = RU.lockset(j)
-    stores = [e for e in j.all_events() if e.kind == "access" and e.node["k"] == "var" and e.node["n"] == "done" and e.mode == "w"]
-    good = 0
-    for e in stores:
-        # find the assignment node
-        asg = None
-        for b in j.blocks.values():
-            for el in b.elems:
-                for n in j.walk(el):
-                    if n["k"] == "bin" and n["op"] == "=" and j.d(n["a"][0]) is e.node:
-                        asg = n
-        if asg is None:
-            continue
-        rhs = RU.uncast(j, asg["a"][1])
-        gz = RU.cmp_norm(j, asg["a"][1], True) if (rhs["k"] == "un" and rhs["op"] == "!") else None
-        if gz is not None and gz[2] is None and RU.uncast(j, gz[0])["k"] == "var":
-            # `done = !count`
-            l = RU.uncast(j, gz[0])
-            iszero = gz[1] == "=="
-            held = RU.held_at(ts, e) or set()
-            R.check(l["n"] == "s_unjoined_thread_count" and iszero and LOCK in held, "HANDOFF", "join-all:done-iff-count-zero", where(j, e),
-                    "done := (unjoined count == 0), read under the lock", "`done` is not computed as count == 0 under the lock: join-all can return while managed threads are still unjoined")
-            good += 1
-        elif rhs["k"] == "bin" and rhs["op"] in ("==", "<=", "<"):
-            l, r = RU.uncast(j, rhs["a"][0]), RU.uncast(j, rhs["a"][1])
-            k = j.is_const(r)
-            iszero = (rhs["op"] in ("==", "<=") and k == 0) or (rhs["op"] == "<" and k == 1)
-            held = RU.held_at(ts, e) or set()
-            R.check(l["k"] == "var" and l["n"] == "s_unjoined_thread_count" and iszero and LOCK in held, "HANDOFF", "join-all:done-iff-count-zero", where(j, e),
-                    "done := (unjoined count == 0), read under the lock", "`done` is not computed as count == 0 under the lock: join-all can return while managed threads are still unjoined")
-            good += 1
-        elif j.is_const(rhs) == 1:
-            gs = [j.show(c) for c, p, b in RU.guards(j, e)]
-            R.check(any("timeout" in g for g in gs), "HANDOFF", "join-all:done-forced-only-on-timeout", where(j, e), "done forced only under the timeout test (%s)" % gs,
-                    "`done = true` is not guarded by the timeout test: join-all may return early")
-        elif j.is_const(rhs) == 0:
-            pass
-        else:
-            R.fail("HANDOFF", "join-all:done-iff-count-zero", where(j, e), "unrecognised assignment to `done`: %s" % j.show(asg))
-    R.require(good >= 1, "join_all_managed: assignment done := (count == 0) not found")
-    # loop condition
-    loops = [b for b in j.blocks.values() if b.term in ("while", "for", "do") and b.cond is not None]
-    okl = any(j.show(b.cond) in ("!done",) for b in loops)
-    R.check(okl, "HANDOFF", "join-all:loops-until-done", "%s()" % j.name, "the join loop runs while !done", "join-all's loop no longer runs until `done`")
+    reads = [e for e in j.all_events() if e.kind == "access" and e.node["k"] == "var" and e.node["n"] == "s_unjoined_thread_count" and e.mode in ("r", "rw")]
+    R.require(len(reads) >= 1, "join_all_managed: assignment done := (count == 0) not found")
+    for e in reads:
+        held = RU.held_at(ts, e) or set()
+        R.check(LOCK in held, "HANDOFF", "join-all:done-iff-count-zero", where(j, e), "the unjoined count is read under the lock",
+                "`done` is not computed as count == 0 under the lock: join-all can return while managed threads are still unjoined")
+    from sa.num import Num, Poly, Limit, entails
+    from sa.awslib import AwsHooks
+    clock = [e for e in j.calls("aws_sys_clock_get_ticks")]
+    nowv = {argstr(j, e.node, 0) for e in clock}
+    num = Num(j, P, AwsHooks(), max_paths=20000) if P is not None else None
+    okx, det, nst = True, "", 0
+    if num is not None and R.require(len(nowv) == 1, "join_all_managed: the clock variable not found"):
+        now = "v:" + list(nowv)[0]
+        try:
+            sts = num.states_at({-1}).get(-1, [])
+        except Limit as ex:
+            R.broken(str(ex))
+            sts = []
+        for st in sts:
+            nst += 1
+            ca = (st.notes.get("orig") or {}).get("g:s_unjoined_thread_count")
+            zero = ca is not None and entails(st, Poly.atom(ca)) and entails(st, -Poly.atom(ca))
+            late = False
+            nv = st.env.get(now)
+            if nv is not None:
+                for k_, v_ in st.env.items():
+                    if k_.startswith("v:") and k_ != now and v_ is not None and not v_.is_const() and v_ != nv and entails(st, v_ - nv) and entails(st, Poly.const(1) - v_):
+                        late = True
+            if not (zero or late):
+                okx, det = False, "trail %s" % (st.trail[-6:],)
+        R.check(okx and nst >= 1, "HANDOFF", "join-all:loops-until-done", "%s()" % j.name, "every return has seen count == 0 under the lock or a passed deadline (%d states)" % nst,
+                "join-all can return although managed threads are still unjoined and no deadline has passed (%s)" % det)
 
 
 def join_list(R, f):
@@ -298,6 +299,13 @@ def join_list(R, f):
             loopw = [a for a in adv if a in RU.reach_from(f, destroy[0])]
             from_saved = all((lambda a_: a_ is not None and a_["op"] == "=" and (RU.uncast(f, a_["a"][1]) or {}).get("k") == "var" and RU.uncast(f, a_["a"][1])["n"] in saved)(_assignment_of_any(f, a)) for a in loopw)
             okadv = bool(nx) and bool(saved) and all(ev_dominates(f, e, destroy[0], dom) for e in nx) and bool(loopw) and from_saved
+        if not okadv and itname:
+            # equally good: the node is taken off the list before its wrapper is destroyed (pop_front / pop_back, or
+            # aws_linked_list_remove of it) and the variable that names it is not read again before it is set anew
+            o_ = RU.origin(f, {"k": "var", "n": itname, "sc": "local", "t": -1, "id": -1})
+            popped = o_ is not None and o_["k"] == "call" and o_.get("callee") in ("aws_linked_list_pop_front", "aws_linked_list_pop_back")
+            removed = any(argstr(f, e.node, 0, addr=False) == itname and ev_dominates(f, e, destroy[0], dom) for e in f.calls("aws_linked_list_remove"))
+            okadv = (popped or removed) and not RU.dead_after(f, destroy[0], itname)
         R.check(okadv, "JOIN-LIST", "iterator-advanced-before-destroy", where(f, destroy[0]), "`%s` is advanced after the wrapper is derived and before it is destroyed" % itname,
                 "the list iterator still points into the wrapper when it is destroyed: the next iteration reads freed memory")
     order = [("set-joinable", [e for e in f.field_accesses(field="detach_state", modes=("w",))]), ("join", joins), ("clean-up", cleans), ("destroy", destroy), ("decrement", decs)]
@@ -501,7 +509,7 @@ def launch(R, f):
             return "balanced" if s == "inc-failed" else "BAD-dec-in-" + s
         if e.kind == "call" and e.node.get("callee") == "s_thread_wrapper_destroy":
             return {"failed": "failed-cleaned", "balanced": "balanced-cleaned"}.get(s, s)
-        if e.kind == "call" and e.node.get("callee") == "aws_thread_launch":
+        if e.kind == "call" and e.node.get("callee") in ("aws_thread_launch", f.name):
             return "retry"
         return s
 
